@@ -451,7 +451,8 @@ func runC01(c *run.Ctx, s *kit.Summary) {
 	st := newStreams(c, s)
 	s.Rule = "points: (kind, params, elapsed, hits) with params from every time unit, extremes of the integer ranges, Freq≷Per, zero/negative, " +
 		"hits around the schedule and around MaxInt64/interval; loops: closed loop in virtual time from (0,0), random stall histories " +
-		"(none / sparse / bursts / jitter); non-trivial = positive (valid) parameters for a point, ≥10 released hits for a loop"
+		"(none / sparse / bursts / jitter), sine/linear loops at 1..1e6 hits/s (a few up to and above one hit per nanosecond), " +
+		"corpus/C01 witnesses first; non-trivial = positive (valid) parameters for a point, ≥10 released hits for a loop"
 	if c.Replay != "" {
 		replay(c, s, st)
 		return
